@@ -6,7 +6,7 @@
    (input edges with rank_dependency = true and explicit rank dependencies; rank-free edges — the
    backward links of capture/feedback-style pairs — are not rank edges).
    Statements only; every proof is one [exact].  The run-time half (forward scan) is the lead's. *)
-Require Import Base Rank RankLemmas RankFacts.
+Require Import Base Rank RankLemmas RankFacts Intern InternFacts InternWf.
 From Coq Require Import Arith Permutation.
 
 (* An accepted wiring is ranked soundly: the compiled order is a permutation of the nodes, every
@@ -54,6 +54,26 @@ Theorem wf_check : forall g, rg_wfb g = true <-> rg_wf g.
 Proof. exact RankFacts.rg_wfb_spec. Qed.
 Print Assumptions wf_check.
 
+(* --- explicit rank dependencies reach the ranking ---------------------------------------------- *)
+(* The service / adaptor rank contract (register_service_rank_anchor, register_service_client_rank,
+   apply_service_rank_dependencies): EVERY registered client — however many share a path and a
+   direction — whose path has an anchor other than itself contributes a rank edge to the graph that
+   finish ranks: anchor -> client for a receiving client, client -> anchor for a sending one ... *)
+Theorem service_edges_ranked : forall prog order w sv g,
+  wire_prog true prog order = Ok w -> collect_svc prog order (w_env w) svc0 = Ok sv ->
+  rgraph_of (finalize w sv) = Some g ->
+  forall p c rc a, In (p, c, rc) (s_clients sv) -> alookup p (s_anchors sv) = Some a -> a <> c ->
+  In (if rc then (a, c) else (c, a)) (rg_edges g).
+Proof. exact InternWf.service_edges_ranked. Qed.
+Print Assumptions service_edges_ranked.
+
+(* ... and whatever finish compiles is a valid ranking of that graph (so by [kahn_sound] a sending
+   client is evaluated before the anchor that consumes its hand-over, a receiving client after it). *)
+Theorem compiled_order_is_ranking : forall prog order w g o es,
+  compile prog order = Built w g o es -> kahn g = KOk o /\ is_ranking g o.
+Proof. exact InternWf.compile_ranked'. Qed.
+Print Assumptions compiled_order_is_ranking.
+
 (* ---- non-vacuity: concrete graphs meeting the hypotheses, evaluated by the kernel *)
 (* diamond 0 -> {1,2} -> 3 declared as 3,1,2,0 would be wrong; here insertion order is 3 2 1 0
    reversed on purpose: node 3 is the source, node 0 the join; node 4 is a push source. *)
@@ -75,4 +95,14 @@ Example ex_loop_broken_ok : kahn ex_loop_broken = KOk [0; 1; 2]%nat. Proof. vm_c
 Example ex_self_loop : kahn {| rg_n := 1; rg_push := [false]; rg_edges := [(0, 0)]%nat |} = KCycle.
 Proof. vm_compute. reflexivity. Qed.
 Example ex_push_dep : kahn {| rg_n := 2; rg_push := [false; true]; rg_edges := [(0, 1)]%nat |} = KPushDep.
+Proof. vm_compute. reflexivity. Qed.
+
+(* hub = statement 1 is the anchor of path 7; statements 2, 3 send to it, 4, 5 receive from it; the
+   clients are wired on the wrong side of the hub by insertion order (receivers first, senders last) *)
+Definition sv_src (k : Z) : ndef := {| nd_def := 0; nd_sch := [1]; nd_scal := Some [k]; nd_uniq := false; nd_push := false |}.
+Definition sv_prog : list stmt :=
+  [StNode (sv_src 4) []; StNode (sv_src 5) []; StNode (sv_src 1) []; StNode (sv_src 2) []; StNode (sv_src 3) [];
+   StAnchor 7 2; StClient 7 3 false; StClient 7 4 false; StClient 7 0 true; StClient 7 1 true]%nat.
+Example sv_order : match compile sv_prog [0; 1; 2; 3; 4; 5; 6; 7; 8; 9]%nat with Built _ _ o _ => o | Rejected _ => [] end
+                   = [3; 4; 2; 0; 1]%nat.
 Proof. vm_compute. reflexivity. Qed.
